@@ -1,5 +1,6 @@
 import LimnoriaModel.C18.Model
 import LimnoriaModel.C18.Plugin
+import LimnoriaModel.C18.Heap
 import LimnoriaModel.Driver.Core
 namespace C18
 open Py Wire
@@ -154,15 +155,41 @@ where
   decPicksP (f : String) : Option (List Name) :=
     if f = "-" then some [] else (f.splitOn ",").mapM decName
 
+/-! ### heapq -/
+
+def encHeap (h : Heap.H) : String :=
+  if h.isEmpty then "-" else ";".intercalate (h.map fun e => toString e.t ++ "/" ++ toString e.rid)
+
+def decHeapItem (f : String) : Option Entry :=
+  match f.splitOn "/" with
+  | [t, i] => do pure ⟨(← t.toNat?), .num (← i.toNat?), [], (← i.toNat?)⟩
+  | _ => none
+
+def decHeap (f : String) : Option Heap.H :=
+  if f = "-" then some [] else (f.splitOn ";").mapM decHeapItem
+
 structure St where
   prog : Prog
   s : Sched
   ps : Plug.PState
+  hp : Heap.H := []
 
 def decPicks (f : String) : Option (List Name) :=
   if f = "-" then some [] else (f.splitOn ",").mapM decName
 
 def stepLine (st : St) : List String → Option (St × String)
+  | ["hset", l] => do
+    let h ← decHeap l
+    pure ({ st with hp := h }, encHeap h)
+  | ["hpush", it] => do
+    let e ← decHeapItem it
+    let h := Heap.heappush st.hp e
+    pure ({ st with hp := h }, encHeap h)
+  | ["hpop"] =>
+    match Heap.heappop st.hp with
+    | none => some (st, "E")
+    | some (e, h) => some ({ st with hp := h }, toString e.t ++ "/" ++ toString e.rid ++ "|" ++ encHeap h)
+  | ["hify"] => some ({ st with hp := Heap.heapify st.hp }, encHeap (Heap.heapify st.hp))
   | ["pnew", t] => do
     let t' ← t.toNat?
     pure ({ st with ps := Plug.pinit t' }, "ok\t-\t" ++ encPState (Plug.pinit t'))
@@ -227,7 +254,7 @@ def stepLine (st : St) : List String → Option (St × String)
 
 def handler : Driver.Handler :=
   { σ := St
-    init := ⟨[], init 0, Plug.pinit 0⟩
+    init := ⟨[], init 0, Plug.pinit 0, []⟩
     step := fun st fs =>
       match stepLine st fs with
       | some r => r
